@@ -118,6 +118,7 @@ def run(ctx, run):
     _ttx_gate(ctx, run, P.need("vbi_decode_teletext", "src/packet.c"))
     _mutex(ctx, run)
     _walk_goes_on(ctx, run, P.need("vbi_event_handler_add", UNIT))
+    _walk_goes_on(ctx, run, P.need("vbi_event_handler_register", UNIT))
     _activation_desyncs(ctx, run)
     _gate_mask_agreement(ctx, run)
     _identity_written_at_creation(ctx, run)
@@ -435,7 +436,7 @@ def _walk_goes_on(ctx, run, f):
                 leaves = b
                 break
             stack.extend(s for s, _ in f.edges(b))
-        key = "RF-CORR:vbi_event_handler_add:walk-continues-after-removal"
+        key = "RF-CORR:%s:walk-continues-after-removal" % f.name
         if leaves is None:
             run.holds("RF-CORR", key, "after `%s` the walk returns to the loop test: the remaining records are visited (further "
                       "records of the same function are removed, all others contribute to the event mask)" % ex.pretty(f, i), ex.loc(f, i))
@@ -443,7 +444,7 @@ def _walk_goes_on(ctx, run, f):
             run.violation("RF-CORR", key, "after `%s` control leaves the list walk: records behind the removed one are neither "
                           "removed (same handler function, other user data) nor counted into the event mask - their service is "
                           "switched off although they are still registered" % ex.pretty(f, i), ex.loc(f, i), witness={"function": f.name})
-    run.floor("record frees inside the removal walk of vbi_event_handler_add", n, 1)
+    run.floor("record frees inside the removal walk of %s" % f.name, n, 1)
 
 
 def _must_call(ctx, f, target, depth=0, memo=None):
